@@ -233,6 +233,9 @@ func c09Space(tier string) *core.Space {
 				}
 				return true
 			})
+			if stt.NonDeterministic {
+				r.Count("harness_errors:default schedule not reproducible", 1)
+			}
 			r.Count("choice_points_with_alternatives", stt.ChoicePoints)
 			if stt.Capped {
 				r.Count("configurations_capped_before_bound_completed", 1)
